@@ -9,6 +9,8 @@ export CARGO_NET_OFFLINE=true
   [ -f Cargo.lock ] || cp /repo/Cargo.lock Cargo.lock
   cargo build --release --offline 2>&1
   cd ..
+  # the real cargo-libcnb binary (C15), built from /repo's working tree into a target directory outside /repo
+  cargo build --offline --manifest-path /repo/Cargo.toml -p libcnb-cargo --target-dir harness/target/repo-bins 2>&1
   if [ -f shim/faultfs.c ]; then
     if [ ! -f shim/faultfs.so ] || [ shim/faultfs.c -nt shim/faultfs.so ]; then
       gcc -O2 -shared -fPIC -o shim/faultfs.so shim/faultfs.c -ldl
